@@ -120,6 +120,60 @@ pub fn diff_text(text: &[u8]) -> Result<Diff, Violation> {
     }
 }
 
+/// The ordering only numbers variables: with ANY ordering (also one whose names look like
+/// keywords, numbers or symbols) the token sequence, by name, and the accept/reject verdict
+/// must be what they are without one.
+pub fn ordering_invariance(text: &[u8], names: &[String]) -> Check {
+    let cj = json!({"kind": "with-ordering", "text": String::from_utf8_lossy(text), "ordering": names});
+    let v = |m: String| Violation::new(m, cj.clone());
+    let ord: Vec<rsbdd::NamedSymbol> = names.iter().enumerate().map(|(i, n)| front::sym(n, i * 2 + 1)).collect();
+    let plain = util::catch(|| {
+        let mut rd = BufReader::new(text);
+        SymbolicBDD::tokenize(&mut rd, None)
+    });
+    let o = ord.clone();
+    let with = util::catch(|| {
+        let mut rd = BufReader::new(text);
+        SymbolicBDD::tokenize(&mut rd, Some(o))
+    });
+    match (plain, with) {
+        (Err(p), _) | (_, Err(p)) => return Err(v(format!("tokenize panicked: {}", p))),
+        (Ok(Ok(a)), Ok(Ok(b))) => {
+            let a2: Vec<Tok> = a.iter().map(rlex::from_impl).collect();
+            let b2: Vec<Tok> = b.iter().map(rlex::from_impl).collect();
+            if a2 != b2 {
+                let i = (0..std::cmp::max(a2.len(), b2.len())).find(|i| a2.get(*i) != b2.get(*i)).unwrap_or(0);
+                return Err(v(format!(
+                    "with the ordering {:?} token {} is {:?} instead of {:?}: an ordering must not change how the text is tokenised",
+                    names,
+                    i,
+                    b2.get(i),
+                    a2.get(i)
+                )));
+            }
+        }
+        (Ok(Err(_)), Ok(Err(_))) => {}
+        (Ok(a), Ok(b)) => {
+            return Err(v(format!("tokenize is {} without and {} with the ordering", if a.is_ok() { "Ok" } else { "Err" }, if b.is_ok() { "Ok" } else { "Err" })))
+        }
+    }
+    let p1 = util::catch(|| front::parse(text, None).map(|pf| rast::from_symbolic(&pf.bdd)));
+    let p2 = util::catch(|| front::parse(text, Some(ord)).map(|pf| rast::from_symbolic(&pf.bdd)));
+    match (p1, p2) {
+        (Err(p), _) | (_, Err(p)) => Err(v(format!("parser panicked: {}", p))),
+        (Ok(Ok(a)), Ok(Ok(b))) if a == b => Ok(()),
+        (Ok(Err(_)), Ok(Err(_))) => Ok(()),
+        (Ok(a), Ok(b)) => Err(v(format!(
+            "the parse differs with the ordering {:?}: {:?} vs {:?}",
+            names,
+            a.map(|x| x.map(|t| rprint::plain(&t))),
+            b.map(|x| x.map(|t| rprint::plain(&t)))
+        ))),
+    }
+}
+
+const ORDERING_NAMES: [&str; 16] = ["a", "b", "x1", "in", "and", "true", "exists", "lfp", "not", "if", "1", "12", "a'", "&", "", "\u{e9}"];
+
 fn record(text: &[u8], d: &Diff, st: &mut Stats) {
     st.eval();
     if d.accepted {
@@ -223,7 +277,7 @@ pub fn run(ctx: &mut Ctx) -> Result<(), Violation> {
     ctx.rule = "cases = input texts. (1) bounded-exhaustive: every sequence of <= L tokens over the full 33-token alphabet (a b 0 2 {r} & | - ^ nor nand => <= <=> if then else exists forall = >= > < ( ) [ ] , false true lfp gfp #), L = 4 quick / 5 thorough, every sequence of exactly 5 (quick) / 6 (thorough) tokens over a reduced 19-token alphabet, and (thorough) of exactly 8 tokens over a 9-token alphabet, space separated; \
                 (2) lexer: every string of <= 5 characters over `< = > - ! & | a 1 ' \" { } _ space e-acute arabic-three backslash`, and every string of <= 2 (thorough 3) characters over all of ASCII plus six non-ASCII characters placed between two identifiers; (3) random token soups over all spellings/aliases/decoys, generated valid formulas under 1-3 token-level mutations (delete, insert, replace, swap, duplicate, truncate), decorated renderings of valid formulas, and the repository's formula files with mutations. \
                 Oracle: reference lexer + LL(1) recursive-descent parser without back-tracking (harness code): tokens equal one by one; reference rejects <=> ParsedFormula::new returns Err; when both accept the trees are structurally equal (variables by name, list lengths, operator kinds, numbers); a panic is a violation. \
-                Non-trivial = accepted with >= 3 tokens, or rejected only after a valid prefix of >= 2 tokens; distinct by text."
+                A share of the random texts is additionally tokenised and parsed under an ordering whose names include keyword-like, number-like and empty names: the ordering must not change tokens (by name) or the verdict. Non-trivial = accepted with >= 3 tokens, or rejected only after a valid prefix of >= 2 tokens; distinct by text."
         .to_string();
     ctx.assume("the reference grammar was derived from README.md and from reading the parser; agreement on the unchanged tree is partly by construction, the check's value is regression detection and grammar-level sanity (LL(1), no back-tracking)");
 
@@ -382,6 +436,19 @@ pub fn run(ctx: &mut Ctx) -> Result<(), Violation> {
         };
         let d = diff_text(text.as_bytes())?;
         record(text.as_bytes(), &d, st);
+        if t.chance(90) {
+            // the same text under an ordering (names incl. keyword-like and number-like ones)
+            let n = 1 + t.choose(5);
+            let mut names: Vec<String> = Vec::new();
+            for _ in 0..n {
+                let c = ORDERING_NAMES[t.choose(ORDERING_NAMES.len())].to_string();
+                if !names.contains(&c) {
+                    names.push(c);
+                }
+            }
+            st.class("also-tokenised-under-an-ordering");
+            ordering_invariance(text.as_bytes(), &names)?;
+        }
         Ok(())
     });
     ctx.stage("random-soups-mutations-decorations", false, r)?;
@@ -394,6 +461,13 @@ pub fn run(ctx: &mut Ctx) -> Result<(), Violation> {
 }
 
 pub fn replay(case: &Value) -> Check {
+    if case["kind"].as_str() == Some("with-ordering") {
+        let names: Vec<String> = case["ordering"].as_array().map(|a| a.iter().filter_map(|x| x.as_str().map(|s| s.to_string())).collect()).unwrap_or_default();
+        return match case["text"].as_str() {
+            Some(t) => ordering_invariance(t.as_bytes(), &names),
+            None => Err(Violation::new("unreadable replay case", case.clone())),
+        };
+    }
     match case_bytes(case) {
         Some(b) => diff_text(&b).map(|_| ()),
         None => Err(Violation::new("unreadable replay case", case.clone())),
